@@ -159,6 +159,38 @@ static void check_integer(const mpz_class &z, int radix, long long &ev)
     }
 }
 
+// one numeral given as text: optional '-', then digits of the radix in either case, leading zeros allowed.  The oracle parses
+// the text itself (Horner mod p), independent of GMP's reader.
+static void check_string(const std::string &t, int radix, long long &ev)
+{
+    bool neg = !t.empty() && t[0] == '-';
+    u64 v = 0;
+    for (size_t i = neg ? 1 : 0; i < t.size(); i++)
+    {
+        char ch = t[i];
+        int d = (ch >= '0' && ch <= '9') ? ch - '0' : (ch >= 'a' && ch <= 'z') ? ch - 'a' + 10 : (ch >= 'A' && ch <= 'Z') ? ch - 'A' + 10 : 99;
+        if (d >= radix) return; // not a numeral of this radix: nothing is claimed
+        v = (u64)(((u128)v * (u64)radix + (u64)d) % GP);
+    }
+    if (t.size() == (neg ? 1u : 0u)) return;
+    u64 ex = neg ? (GP - v) % GP : v;
+    std::string cs_ = fmt("kind=str radix=%d s=%s", radix, t.c_str());
+    ev += 2;
+    try
+    {
+        E a = Goldilocks::fromString(t, radix);
+        if (a.fe % GP != ex) { rep().viol("C15.wrong.fromString.text", cs_, fmt("got %s expected %s", hex(a.fe).c_str(), hex(ex).c_str())); return; }
+        E r1;
+        r1.fe = 0x5E5E5E5E5E5E5E5EULL;
+        Goldilocks::fromString(r1, t, radix);
+        if (r1.fe % GP != ex) rep().viol("C15.wrong.fromString.text", cs_, fmt("reference overload: got %s expected %s", hex(r1.fe).c_str(), hex(ex).c_str()));
+    }
+    catch (const std::exception &e)
+    {
+        rep().viol("C15.throws.fromString.text", cs_, std::string("a valid numeral of this radix was rejected: ") + e.what());
+    }
+}
+
 static int run_one(const Args &args)
 {
     auto m = parse_case(args.one);
@@ -168,6 +200,7 @@ static int run_one(const Args &args)
     else if (k == "s32") check_s32((int32_t)strtol(cs(m, "v").c_str(), 0, 10), ev);
     else if (k == "s64") check_raw((u64)strtoll(cs(m, "v").c_str(), 0, 10), ev);
     else if (k == "int") check_integer(mpz_class(cs(m, "z"), 10), (int)cu(m, "radix"), ev);
+    else if (k == "str") check_string(cs(m, "s"), (int)cu(m, "radix"), ev);
     rep().flush();
     return 0;
 }
@@ -259,6 +292,52 @@ int main(int argc, char **argv)
         states += (long long)Z.size() * 35;
         for (auto &z : Z) if (z < 0 || z >= PZ) nontriv += 35;
         rep().sample("integers", fmt("\"what\":\"%zu integers k*p+r (k in -2^65,-4..4,2^65; 40 residues) and neighbours of -p,0,+-2^64, each in every radix 2..36, as string and as mpz\",\"example\":\"-18446744069414584326 = -p-5\"", Z.size()), 1);
+    }
+    {
+        // every numeral text of 1..3 symbols (thorough 4) over the digits of the radix in both letter cases, with and without
+        // a minus sign, for every radix 2..36: leading zeros, mixed case and every digit next to every other digit
+        const int maxlen = args.thorough() ? 4 : 3;
+        long long ev = 0, n = 0;
+#pragma omp parallel for schedule(dynamic, 1) reduction(+ : ev, n)
+        for (int radix = 2; radix <= 36; radix++)
+        {
+            std::string sym;
+            for (int d = 0; d < radix; d++) { sym += (char)(d < 10 ? '0' + d : 'a' + d - 10); if (d >= 10) sym += (char)('A' + d - 10); }
+            std::vector<int> ix;
+            for (int len = 1; len <= maxlen; len++)
+            {
+                ix.assign(len, 0);
+                for (;;)
+                {
+                    std::string t;
+                    for (int i : ix) t += sym[i];
+                    check_string(t, radix, ev);
+                    check_string("-" + t, radix, ev);
+                    n += 2;
+                    int k = len - 1;
+                    while (k >= 0 && ++ix[k] == (int)sym.size()) ix[k--] = 0;
+                    if (k < 0) break;
+                }
+            }
+        }
+        // the long numerals of the integer set above with leading zeros and in upper case
+        {
+            std::vector<mpz_class> Z2;
+            for (int d = -2; d <= 2; d++) { Z2.push_back(PZ + d); Z2.push_back(-PZ + d); Z2.push_back((mpz_class(1) << 64) + d); Z2.push_back(mpz_class(3) * PZ + d); Z2.push_back(-(mpz_class(1) << 65) + d); }
+            for (auto &z : Z2)
+                for (int radix = 2; radix <= 36; radix++)
+                {
+                    std::string t = z.get_str(radix), sign = t[0] == '-' ? "-" : "", body = t[0] == '-' ? t.substr(1) : t, up = body;
+                    for (auto &ch : up) ch = (char)toupper((unsigned char)ch);
+                    for (const std::string &b : {body, up})
+                        for (const char *pad : {"0", "00", "0000000000000000000000000000000000000000000000000000000000000000000"}) { check_string(sign + pad + b, radix, ev); n++; }
+                }
+        }
+        ev_total += ev;
+        states += n;
+        nontriv += n;
+        rep().stat("numeral_texts", n);
+        rep().sample("texts", fmt("\"what\":\"every text of 1..%d digit symbols (both letter cases) with and without '-', every radix 2..36; long numerals with leading zeros / upper case\",\"texts\":%lld", maxlen, n), 1);
     }
     rep().stat("states", states);
     rep().stat("transitions", ev_total);
